@@ -151,6 +151,15 @@ func runCacheHistory(env *fw.Env, c CacheCase, withFaults bool, judgeMinimizeLat
 				n = op.Burst
 				classes = append(classes, "burst")
 			}
+			ctx0 := ctx
+			deadlined := withFaults && op.DeadlineUs > 0 && op.Burst > 1
+			if deadlined {
+				var cancel0 context.CancelFunc
+				ctx0, cancel0 = context.WithTimeout(ctx, time.Duration(op.DeadlineUs)*time.Microsecond)
+				defer cancel0()
+				fd.slowNs.Store(int64(op.SlowUs) * 1000)
+				classes = append(classes, "burst-with-one-copy-under-deadline+slow-datastore")
+			}
 			type res struct {
 				a bool
 				e error
@@ -161,11 +170,18 @@ func runCacheHistory(env *fw.Env, c CacheCase, withFaults bool, judgeMinimizeLat
 				wg.Add(1)
 				go func(j int) {
 					defer wg.Done()
-					a, e := checkWithConsistency(s, ctx, storeID, modelID, op.Req, op.HC)
+					c := ctx
+					if j == 0 {
+						c = ctx0
+					}
+					a, e := checkWithConsistency(s, c, storeID, modelID, op.Req, op.HC)
 					out[j] = res{a, e}
 				}(j)
 			}
 			wg.Wait()
+			if deadlined {
+				fd.slowNs.Store(0)
+			}
 			fired := false
 			if faulted {
 				fired = fd.disarm()
@@ -174,7 +190,14 @@ func runCacheHistory(env *fw.Env, c CacheCase, withFaults bool, judgeMinimizeLat
 			if fired {
 				readFailed = true
 			}
-			for _, o := range out {
+			for j, o := range out {
+				if deadlined && j == 0 && isCancelled(o.e) {
+					// running out of time is no datastore failure: it does not excuse later failures of clean requests
+					faultSeen = true
+					faultedInside++
+					classes = append(classes, "deadlined-copy-failed")
+					continue
+				}
 				if !fired && o.e != nil && readFailed && c.Cfg.Shared && isCancelled(o.e) {
 					return fw.Failf(SigSharedReplaysReadError, "%s clean Check(%s) failed with %v after an earlier request's datastore read had failed or been cancelled (shared iterators on)\n%s", what, op.Req, o.e, semkit.Describe(cur))
 				}
@@ -190,7 +213,9 @@ func runCacheHistory(env *fw.Env, c CacheCase, withFaults bool, judgeMinimizeLat
 						// reference (C03): the oracle is the same engine with caching disabled
 						nc, _ := v2Server()
 						ba, be := checkWithConsistency(nc, context.Background(), storeID, modelID, op.Req, true)
-						if (be != nil) != (o.e != nil) || (be == nil && ba != o.a) {
+						// the weighted engine's answer for such subjects also varies with the strategy its planner
+						// picks (recorded finding under C03), so an answer that satisfies the reference is accepted too
+						if ((be != nil) != (o.e != nil) || (be == nil && ba != o.a)) && judgeCheckAgainst(cur, op.Req, o.a, o.e, what) != nil {
 							return fw.Failf("", "%s weighted-engine Check(%s) answered %v (err %v) with caches, %v (err %v) without\n%s", what, op.Req, o.a, o.e, ba, be, semkit.Describe(cur))
 						}
 					} else if f := judgeCheckAgainst(cur, op.Req, o.a, o.e, fmt.Sprintf("%s [faulted=%v fired=%v earlier-read-failed=%v]", what, faulted, fired, readFailed)); f != nil {
@@ -320,7 +345,8 @@ func genC08Cycles(t *rapid.T) CacheCase {
 		first.User = "user:0"
 	}
 	var rels []string
-	for _, r := range w.Model.Type("group").Relations {
+	tn := gen.CycleType(w)
+	for _, r := range w.Model.Type(tn).Relations {
 		if r.Name != "parent" {
 			rels = append(rels, r.Name)
 		}
@@ -333,7 +359,7 @@ func genC08Cycles(t *rapid.T) CacheCase {
 		}
 		for i, n := 0, rapid.IntRange(2, 4).Draw(t, "nOps"); i < n; i++ {
 			r := first
-			r.Object = fmt.Sprintf("group:%d", rapid.IntRange(0, o.MaxIDs-1).Draw(t, "obj"))
+			r.Object = fmt.Sprintf("%s:%d", tn, rapid.IntRange(0, o.MaxIDs-1).Draw(t, "obj"))
 			r.Relation = rels[rapid.IntRange(0, len(rels)-1).Draw(t, "rel")]
 			if rapid.IntRange(0, 7).Draw(t, "otherSubject") == 0 {
 				r.User = gen.RequestFor(t, w, o).User
